@@ -32,6 +32,9 @@ Section IncludesProofs.
   Notation add_libraries := (add_libraries canon is_dir ext_circom).
   Notation add_files := (add_files canon is_dir read_dir join ext_circom).
   Notation new := (new canon is_dir read_dir join ext_circom).
+  Notation add_files_once := (add_files_once canon is_dir read_dir join ext_circom).
+  Notation new_all := (new_all canon is_dir read_dir join ext_circom).
+  Notation dirs_revisited := (dirs_revisited canon is_dir read_dir join ext_circom).
   Notation search_libraries := (search_libraries canon is_file join file_name starts_dot has_sep).
   Notation include_library := (include_library canon is_file join file_name starts_dot has_sep).
   Notation add_include := (add_include canon is_file join file_name starts_dot has_sep).
@@ -133,8 +136,8 @@ Section IncludesProofs.
              inversion He; subst; congruence.
   Qed.
 
-  Lemma new_spec fuel paths libs st reps :
-    new fuel paths libs [] = Ok (st, reps) ->
+  Lemma new_all_spec fuel paths libs st reps :
+    new_all fuel paths libs [] = Ok (st, reps) ->
     current_location st = None /\ black_paths st = [] /\
     user_inputs st = stack st /\
     libraries st = (add_libraries libs []).1 /\
@@ -143,7 +146,7 @@ Section IncludesProofs.
     Forall only_os reps /\
     (forall c, c ∈ user_inputs st <-> exists p, p ∈ paths /\ expands true p c).
   Proof.
-    unfold Includes.new. destruct (add_libraries libs []) as [ls r0] eqn:El.
+    unfold Includes.new_all. destruct (add_libraries libs []) as [ls r0] eqn:El.
     intros Hn. apply bind_ok in Hn as (r & Ha & Hn). inversion Hn; subst; simpl.
     pose proof (add_libraries_ok libs [] (Forall_nil_2 _)) as [L1 L2]. rewrite El in L1, L2. simpl in *.
     apply add_files_spec in Ha as (A1 & A2 & A3). simpl in *.
@@ -152,6 +155,197 @@ Section IncludesProofs.
     - intros Hc. apply A1 in Hc as [Hc|Hc]; [by apply elem_of_nil in Hc|done].
     - intros Hc. apply A1. by right.
   Qed.
+
+  (* ---- the code after 517e7a0: add_files_once ---- *)
+
+  Lemma add_files_once_nil fuel nm dirs acc : add_files_once (S fuel) nm [] dirs acc = Ok (dirs, acc).
+  Proof. reflexivity. Qed.
+
+  Lemma add_files_once_unfold fuel nm p rest dirs acc :
+    add_files_once (S fuel) nm (p :: rest) dirs acc =
+    if is_dir p then
+      match canon p with
+      | Some d =>
+        if decide (d ∈ dirs.1) then add_files_once (S fuel) nm rest (dirs.1, true) acc
+        else
+          match read_dir p with
+          | Some names =>
+            Base.bind (add_files_once fuel false (map (join p) names) (d :: dirs.1, dirs.2) acc)
+                      (fun r => add_files_once (S fuel) nm rest r.1 r.2)
+          | None => add_files_once (S fuel) nm rest (d :: dirs.1, dirs.2) acc
+          end
+      | None =>
+        match read_dir p with
+        | Some names =>
+          Base.bind (add_files_once fuel false (map (join p) names) dirs acc)
+                    (fun r => add_files_once (S fuel) nm rest r.1 r.2)
+        | None => add_files_once (S fuel) nm rest dirs acc
+        end
+      end
+    else if nm || ext_circom p then
+      match canon p with
+      | Some c => add_files_once (S fuel) nm rest dirs (c :: acc.1, acc.2)
+      | None => add_files_once (S fuel) nm rest dirs (acc.1, acc.2 ++ [FileOsError p])
+      end
+    else add_files_once (S fuel) nm rest dirs acc.
+  Proof. reflexivity. Qed.
+
+  (* the flag "a directory was met twice" is never cleared *)
+  Lemma once_flag_mono fuel : forall nm paths dirs acc r,
+    add_files_once fuel nm paths dirs acc = Ok r -> dirs.2 = true -> r.1.2 = true.
+  Proof.
+    induction fuel as [|k IHk]; intros nm; [discriminate|].
+    induction paths as [|p rest IH]; intros dirs acc r H Hf.
+    - rewrite add_files_once_nil in H. inversion H; by subst.
+    - rewrite add_files_once_unfold in H. destruct (is_dir p).
+      + destruct (canon p) as [d|].
+        * destruct (decide (d ∈ dirs.1)); [by apply (IH _ _ _ H)|].
+          destruct (read_dir p); [|by apply (IH _ _ _ H)].
+          apply bind_ok in H as (r1 & H1 & H2). apply (IH _ _ _ H2). by apply (IHk _ _ _ _ _ H1).
+        * destruct (read_dir p); [|by apply (IH _ _ _ H)].
+          apply bind_ok in H as (r1 & H1 & H2). apply (IH _ _ _ H2). by apply (IHk _ _ _ _ _ H1).
+      + destruct (nm || ext_circom p); [destruct (canon p)|]; by apply (IH _ _ _ H).
+  Qed.
+
+  Lemma once_flag_false fuel nm paths dirs acc r :
+    add_files_once fuel nm paths dirs acc = Ok r -> r.1.2 = false -> dirs.2 = false.
+  Proof.
+    intros H Hf. destruct (dirs.2) eqn:E; [|done]. apply once_flag_mono in H; [congruence|done].
+  Qed.
+
+  (* when no directory was met twice the fix changes nothing: the run computes
+     what the code before it computed *)
+  Lemma add_files_once_bridge fuel : forall nm paths dirs acc r,
+    add_files_once fuel nm paths dirs acc = Ok r -> r.1.2 = false ->
+    add_files fuel nm paths acc = Ok r.2.
+  Proof.
+    induction fuel as [|k IHk]; intros nm; [discriminate|].
+    induction paths as [|p rest IH]; intros dirs acc r H Hf.
+    - rewrite add_files_once_nil in H. inversion H; by subst.
+    - rewrite add_files_once_unfold in H. simpl. destruct (is_dir p).
+      + destruct (canon p) as [d|].
+        * destruct (decide (d ∈ dirs.1)).
+          { apply once_flag_mono in H; [congruence|done]. }
+          destruct (read_dir p); [|by apply (IH _ _ _ H)].
+          apply bind_ok in H as (r1 & H1 & H2).
+          pose proof (once_flag_false _ _ _ _ _ _ H2 Hf) as Hf1.
+          rewrite (IHk _ _ _ _ _ H1 Hf1). simpl. by apply (IH _ _ _ H2).
+        * destruct (read_dir p); [|by apply (IH _ _ _ H)].
+          apply bind_ok in H as (r1 & H1 & H2).
+          pose proof (once_flag_false _ _ _ _ _ _ H2 Hf) as Hf1.
+          rewrite (IHk _ _ _ _ _ H1 Hf1). simpl. by apply (IH _ _ _ H2).
+      + destruct (nm || ext_circom p); [destruct (canon p)|]; by apply (IH _ _ _ H).
+  Qed.
+
+  (* without any premise: what is collected is named (the visited set only
+     removes), canonical, and the reports are OS errors *)
+  Lemma add_files_once_sound fuel : forall nm paths dirs acc r,
+    add_files_once fuel nm paths dirs acc = Ok r ->
+    (forall c, c ∈ r.2.1 -> c ∈ acc.1 \/ exists p, p ∈ paths /\ expands nm p c) /\
+    (forall p c, p ∈ paths -> is_dir p = false -> canon p = Some c -> nm || ext_circom p = true -> c ∈ r.2.1) /\
+    (forall c, c ∈ acc.1 -> c ∈ r.2.1) /\
+    (Forall canonical acc.1 -> Forall canonical r.2.1) /\
+    (Forall only_os acc.2 -> Forall only_os r.2.2).
+  Proof.
+    induction fuel as [|k IHk]; intros nm; [discriminate|].
+    induction paths as [|p rest IH]; intros dirs acc r H.
+    - rewrite add_files_once_nil in H. inversion H; subst; simpl.
+      split; [auto|]. split; [intros p c Hp; by apply elem_of_nil in Hp|]. auto.
+    - rewrite add_files_once_unfold in H.
+      assert (Hrest : forall dirs0 acc0, add_files_once (S k) nm rest dirs0 acc0 = Ok r ->
+                (forall c, c ∈ acc0.1 -> c ∈ acc.1 \/ exists q, q ∈ p :: rest /\ expands nm q c) ->
+                (forall c, is_dir p = false -> canon p = Some c -> nm || ext_circom p = true -> c ∈ acc0.1) ->
+                (forall c, c ∈ acc.1 -> c ∈ acc0.1) ->
+                (Forall canonical acc.1 -> Forall canonical acc0.1) ->
+                (Forall only_os acc.2 -> Forall only_os acc0.2) ->
+                (forall c, c ∈ r.2.1 -> c ∈ acc.1 \/ exists q, q ∈ p :: rest /\ expands nm q c) /\
+                (forall q c, q ∈ p :: rest -> is_dir q = false -> canon q = Some c -> nm || ext_circom q = true -> c ∈ r.2.1) /\
+                (forall c, c ∈ acc.1 -> c ∈ r.2.1) /\
+                (Forall canonical acc.1 -> Forall canonical r.2.1) /\
+                (Forall only_os acc.2 -> Forall only_os r.2.2)).
+      { intros dirs0 acc0 H0 G1 G2 G3 G4 G5. apply IH in H0 as (R1 & R2 & R3 & R4 & R5).
+        split; [|split; [|split; [|split]]].
+        - intros c Hc. apply R1 in Hc as [Hc|(q & Hq & He)]; [by apply G1|].
+          right. exists q. split; [by right|done].
+        - intros q c Hq Hd Hc He. apply elem_of_cons in Hq as [->|Hq]; [apply R3; by apply G2|by eapply R2].
+        - auto.
+        - auto.
+        - auto. }
+      destruct (is_dir p) eqn:Ed.
+      + match goal with |- ?G =>
+          assert (Hskip : forall dirs0, add_files_once (S k) nm rest dirs0 acc = Ok r -> G) by
+            (intros dirs0 H0; apply (Hrest dirs0 acc H0); [auto|congruence|auto|auto|auto]);
+          assert (Hrec : forall names dirs0, read_dir p = Some names ->
+                   Base.bind (add_files_once k false (map (join p) names) dirs0 acc)
+                             (fun r0 => add_files_once (S k) nm rest r0.1 r0.2) = Ok r -> G)
+        end.
+        { intros names dirs0 Er H0. apply bind_ok in H0 as (r1 & H1 & H2).
+          apply IHk in H1 as (A1 & A2 & A3 & A4 & A5).
+          apply (Hrest _ _ H2); [|congruence|auto|auto|auto].
+          intros c Hc. apply A1 in Hc as [Hc|(q & Hq & He)]; [auto|].
+          right. exists p. split; [left|]. apply elem_of_list_fmap in Hq as (n & -> & Hn). by eapply expands_dir. }
+        destruct (canon p) as [d|].
+        * destruct (decide (d ∈ dirs.1)); [by eapply Hskip|].
+          destruct (read_dir p) as [names|] eqn:Er; [by eapply Hrec|by eapply Hskip].
+        * destruct (read_dir p) as [names|] eqn:Er; [by eapply Hrec|by eapply Hskip].
+      + destruct (nm || ext_circom p) eqn:Ee.
+        * destruct (canon p) as [c0|] eqn:Ec.
+          -- apply (Hrest _ _ H); simpl.
+             ++ intros c Hc. apply elem_of_cons in Hc as [->|Hc]; [|auto].
+                right. exists p. split; [left|]. by apply expands_file.
+             ++ intros c _ Hc _. inversion Hc; subst. left.
+             ++ intros c Hc. by right.
+             ++ intros Hc. constructor; [by eapply canon_idem|done].
+             ++ auto.
+          -- apply (Hrest _ _ H); simpl; [auto|congruence|auto|auto|].
+             intros Ho. apply Forall_app; split; [done|]. constructor; [by eexists|done].
+        * apply (Hrest _ _ H); [auto|congruence|auto|auto|auto].
+  Qed.
+
+  Lemma new_is_new_all fuel paths libs st reps :
+    new fuel paths libs [] = Ok (st, reps) -> dirs_revisited fuel paths libs = false ->
+    new_all fuel paths libs [] = Ok (st, reps).
+  Proof.
+    unfold Includes.new, Includes.new_all, Includes.dirs_revisited.
+    destruct (add_libraries libs []) as [ls r0] eqn:El. simpl.
+    intros Hn Hf. apply bind_ok in Hn as (r & Ha & Hn). rewrite Ha in Hf.
+    rewrite (add_files_once_bridge _ _ _ _ _ _ Ha Hf). simpl. exact Hn.
+  Qed.
+
+  (* everything about FileStack::new that needs no premise *)
+  Lemma new_spec_weak fuel paths libs st reps :
+    new fuel paths libs [] = Ok (st, reps) ->
+    current_location st = None /\ black_paths st = [] /\
+    user_inputs st = stack st /\
+    libraries st = (add_libraries libs []).1 /\
+    Forall lib_ok (libraries st) /\
+    Forall canonical (stack st) /\
+    Forall only_os reps /\
+    (forall c, c ∈ user_inputs st -> exists p, p ∈ paths /\ expands true p c) /\
+    (forall p c, p ∈ paths -> is_dir p = false -> canon p = Some c -> c ∈ user_inputs st).
+  Proof.
+    unfold Includes.new. destruct (add_libraries libs []) as [ls r0] eqn:El.
+    intros Hn. apply bind_ok in Hn as (r & Ha & Hn). inversion Hn; subst; simpl.
+    pose proof (add_libraries_ok libs [] (Forall_nil_2 _)) as [L1 L2]. rewrite El in L1, L2. simpl in *.
+    apply add_files_once_sound in Ha as (A1 & A2 & A3 & A4 & A5). simpl in *.
+    do 5 (split; [done|]). split; [apply A4; constructor|]. split; [auto|]. split.
+    - intros c Hc. apply A1 in Hc as [Hc|Hc]; [by apply elem_of_nil in Hc|done].
+    - intros p c Hp Hd Hc. by eapply A2.
+  Qed.
+
+  (* with the premise that no directory was met twice: the user-input set is
+     exactly what the command line names *)
+  Lemma new_spec fuel paths libs st reps :
+    new fuel paths libs [] = Ok (st, reps) ->
+    dirs_revisited fuel paths libs = false ->
+    current_location st = None /\ black_paths st = [] /\
+    user_inputs st = stack st /\
+    libraries st = (add_libraries libs []).1 /\
+    Forall lib_ok (libraries st) /\
+    Forall canonical (stack st) /\
+    Forall only_os reps /\
+    (forall c, c ∈ user_inputs st <-> exists p, p ∈ paths /\ expands true p c).
+  Proof. intros Hn Hf. eapply new_all_spec. by apply new_is_new_all. Qed.
 
   (* ---------------------------------------------------------------- *)
   (* include resolution                                               *)
@@ -560,7 +754,7 @@ Section IncludesProofs.
     new dfuel paths libs [] = Ok (st0, reps0) ->
     inv (add_libraries libs []).1 (user_inputs st0) (ParseState st0 [] reps0 []).
   Proof.
-    intros Hn. apply new_spec in Hn as (N1 & N2 & N3 & N4 & N5 & N6 & N7 & N8).
+    intros Hn. apply new_spec_weak in Hn as (N1 & N2 & N3 & N4 & N5 & N6 & N7 & N8 & N9).
     constructor; simpl.
     - done.
     - done.
@@ -577,13 +771,31 @@ Section IncludesProofs.
     - intros f u Hf. by apply elem_of_nil in Hf.
   Qed.
 
+  (* without a premise: the user-input set holds named files only, and every
+     non-directory argument *)
+  Lemma parse_files_inv_weak dfuel fuel paths libs s :
+    parse_files false dfuel fuel paths libs = Ok s ->
+    exists ui, (forall c, c ∈ ui -> named paths c) /\
+               (forall p c, p ∈ paths -> is_dir p = false -> canon p = Some c -> c ∈ ui) /\
+               inv (add_libraries libs []).1 ui s /\ stack (ps_stack s) = [].
+  Proof.
+    unfold Includes.parse_files. intros Hp. apply bind_ok in Hp as ([st0 reps0] & Hn & Hl). simpl in Hl.
+    pose proof (new_spec_weak _ _ _ _ _ Hn) as (N1 & N2 & N3 & N4 & N5 & N6 & N7 & N8 & N9).
+    exists (user_inputs st0). split; [done|]. split; [done|].
+    eapply parse_loop_inv; [by rewrite <- N4| |done].
+    by eapply initial_inv.
+  Qed.
+
+  (* with the premise that no named directory was met twice (fix 517e7a0 skips
+     the second visit): the user-input set is exactly the named set *)
   Lemma parse_files_inv dfuel fuel paths libs s :
+    dirs_revisited dfuel paths libs = false ->
     parse_files false dfuel fuel paths libs = Ok s ->
     exists ui, (forall c, c ∈ ui <-> named paths c) /\
                inv (add_libraries libs []).1 ui s /\ stack (ps_stack s) = [].
   Proof.
-    unfold Includes.parse_files. intros Hp. apply bind_ok in Hp as ([st0 reps0] & Hn & Hl). simpl in Hl.
-    pose proof (new_spec _ _ _ _ _ Hn) as (N1 & N2 & N3 & N4 & N5 & N6 & N7 & N8).
+    unfold Includes.parse_files. intros Hno Hp. apply bind_ok in Hp as ([st0 reps0] & Hn & Hl). simpl in Hl.
+    pose proof (new_spec _ _ _ _ _ Hn Hno) as (N1 & N2 & N3 & N4 & N5 & N6 & N7 & N8).
     exists (user_inputs st0). split; [done|].
     eapply parse_loop_inv; [by rewrite <- N4| |done].
     by eapply initial_inv.
@@ -595,7 +807,7 @@ Section IncludesProofs.
     Forall canonical (ps_read s) /\
     forall i j p q, ps_read s !! i = Some p -> ps_read s !! j = Some q -> canon p = canon q -> i = j.
   Proof.
-    intros Hp. apply parse_files_inv in Hp as (ui & _ & I & _). destruct I.
+    intros Hp. apply parse_files_inv_weak in Hp as (ui & _ & _ & I & _). destruct I.
     split; [done|]. intros i j p q Hi Hj Hc.
     rewrite Forall_forall in inv_read0.
     assert (canonical p) as Cp by (eapply inv_read0, elem_of_list_lookup_2; eauto).
@@ -608,15 +820,35 @@ Section IncludesProofs.
      resolving includes relative to the including file first and through the
      libraries in order second *)
   Lemma reads_exactly_reachable dfuel fuel paths libs s :
+    dirs_revisited dfuel paths libs = false ->
     parse_files false dfuel fuel paths libs = Ok s ->
     forall c, c ∈ ps_read s <-> reachable (named paths) (add_libraries libs []).1 c.
   Proof.
-    intros Hp. apply parse_files_inv in Hp as (ui & Hui & I & Hstk). destruct I.
+    intros Hno Hp. apply (parse_files_inv _ _ _ _ _ Hno) in Hp as (ui & Hui & I & Hstk). destruct I.
     intros c; split.
     - intros Hc. eapply reachable_ext; [|apply inv_sound0; by right]. intros x. apply Hui.
     - intros Hr. induction Hr as [c Hc|f incs x c Hf IH Hc Hx Hr].
       + apply Hui in Hc. apply inv_named0 in Hc as [Hc|Hc]; [|done]. rewrite Hstk in Hc. by apply elem_of_nil in Hc.
       + destruct (inv_closed0 f incs x c IH Hc Hx Hr) as [H1|H1]; [|done]. rewrite Hstk in H1. by apply elem_of_nil in H1.
+  Qed.
+
+  (* no premise: the files read are closed under resolved includes *)
+  Lemma reads_closed dfuel fuel paths libs s f incs x c :
+    parse_files false dfuel fuel paths libs = Ok s ->
+    f ∈ ps_read s -> content f = Parsed incs -> x ∈ incs ->
+    resolves f (add_libraries libs []).1 x.1.1 (Some c) -> c ∈ ps_read s.
+  Proof.
+    intros Hp Hf Hc Hx Hr. apply parse_files_inv_weak in Hp as (ui & _ & _ & I & Hstk). destruct I.
+    destruct (inv_closed0 f incs x c Hf Hc Hx Hr) as [H1|H1]; [|done]. rewrite Hstk in H1. by apply elem_of_nil in H1.
+  Qed.
+
+  (* the half that needs no premise: every file read is reachable from a named file *)
+  Lemma reads_only_reachable dfuel fuel paths libs s :
+    parse_files false dfuel fuel paths libs = Ok s ->
+    forall c, c ∈ ps_read s -> reachable (named paths) (add_libraries libs []).1 c.
+  Proof.
+    intros Hp. apply parse_files_inv_weak in Hp as (ui & Hui & _ & I & Hstk). destruct I.
+    intros c Hc. eapply reachable_ext; [|apply inv_sound0; by right]. intros x. apply Hui.
   Qed.
 
   (* C19: an include error carries the file id and the range of an unresolved
@@ -631,7 +863,7 @@ Section IncludesProofs.
        resolves f (add_libraries libs []).1 p None ->
        exists i u, ps_files s !! i = Some (f, u) /\ IncludeError p (Some i) a b ∈ ps_reports s).
   Proof.
-    intros Hp. apply parse_files_inv in Hp as (ui & Hui & I & Hstk). destruct I. split.
+    intros Hp. apply parse_files_inv_weak in Hp as (ui & Hui & _ & I & Hstk). destruct I. split.
     - intros p fid a b Hi. destruct (inv_reports0 p fid a b Hi) as (i & f & u & incs & E1 & E2 & E3 & E4 & E5).
       exists i, f, u, incs. repeat split; try done. eapply inv_files_read0, elem_of_list_lookup_2; eauto.
     - intros f incs p a b Hf Hc Hx Hr. apply (inv_errors0 f incs (p, a, b)); done.
@@ -639,20 +871,34 @@ Section IncludesProofs.
 
   (* C19: the user-input set is the set of files named on the command line *)
   Lemma user_set_is_argv_files dfuel paths libs st reps :
+    dirs_revisited dfuel paths libs = false ->
     new dfuel paths libs [] = Ok (st, reps) ->
     forall c, is_user_input st c = true <-> named paths c.
   Proof.
-    intros Hn. apply new_spec in Hn as (_ & _ & _ & _ & _ & _ & _ & N8).
+    intros Hno Hn. apply new_spec in Hn as (_ & _ & _ & _ & _ & _ & _ & N8); [|done].
     intros c. unfold Includes.is_user_input. rewrite bool_decide_eq_true. apply N8.
+  Qed.
+
+  (* without a premise: a user input is a named file, and every argument that
+     is not a directory is a user input *)
+  Lemma user_set_sound dfuel paths libs st reps :
+    new dfuel paths libs [] = Ok (st, reps) ->
+    (forall c, is_user_input st c = true -> named paths c) /\
+    (forall p c, p ∈ paths -> is_dir p = false -> canon p = Some c -> is_user_input st c = true).
+  Proof.
+    intros Hn. apply new_spec_weak in Hn as (_ & _ & _ & _ & _ & _ & _ & N8 & N9). split.
+    - intros c. unfold Includes.is_user_input. rewrite bool_decide_eq_true. apply N8.
+    - intros p c Hp Hd Hc. unfold Includes.is_user_input. rewrite bool_decide_eq_true. by eapply N9.
   Qed.
 
   (* C19: a file that was only included is not a user input, a named one is *)
   Lemma included_only_files_are_not_user_inputs dfuel fuel paths libs s :
+    dirs_revisited dfuel paths libs = false ->
     parse_files false dfuel fuel paths libs = Ok s ->
     (forall c, is_user_input (ps_stack s) c = true <-> named paths c) /\
     forall i f u, ps_files s !! i = Some (f, u) -> f ∈ ps_read s /\ (u = true <-> named paths f).
   Proof.
-    intros Hp. apply parse_files_inv in Hp as (ui & Hui & I & Hstk). destruct I. split.
+    intros Hno Hp. apply (parse_files_inv _ _ _ _ _ Hno) in Hp as (ui & Hui & I & Hstk). destruct I. split.
     - intros c. unfold Includes.is_user_input. rewrite bool_decide_eq_true, inv_ui0. apply Hui.
     - intros i f u Hi. apply elem_of_list_lookup_2 in Hi. split; [by eapply inv_files_read0|].
       rewrite Forall_forall in inv_files0. apply inv_files0 in Hi. simpl in Hi. subst u.
@@ -695,6 +941,32 @@ Section IncludesProofs.
       + destruct (named || ext_circom p); [|by apply IH]. destruct (canon p); by apply IH.
   Qed.
 
+  Lemma add_files_once_fuel k : forall nm paths dirs acc,
+    Forall (depth_le k) paths -> add_files_once (S k) nm paths dirs acc <> OutOfFuel.
+  Proof.
+    induction k as [|k IHk]; intros nm; induction paths as [|p rest IH]; intros dirs acc Hd; try done;
+      inversion Hd as [|? ? Hp Hrest]; subst; rewrite add_files_once_unfold.
+    - destruct (is_dir p) eqn:Ed.
+      + assert (read_dir p = None) as -> by (inversion Hp; congruence).
+        destruct (canon p); [destruct (decide _)|]; by apply IH.
+      + destruct (nm || ext_circom p); [|by apply IH]. destruct (canon p); by apply IH.
+    - destruct (is_dir p) eqn:Ed.
+      + assert (Hrec : forall names dirs0, read_dir p = Some names ->
+                  Base.bind (add_files_once (S k) false (map (join p) names) dirs0 acc)
+                            (fun r0 => add_files_once (S (S k)) nm rest r0.1 r0.2) <> OutOfFuel).
+        { intros names dirs0 Er.
+          destruct (add_files_once (S k) false (map (join p) names) dirs0 acc) as [r1| | |] eqn:Ea; try done.
+          - by apply IH.
+          - exfalso. revert Ea. apply IHk. inversion Hp; subst; try congruence.
+            match goal with H : read_dir p = Some _ |- _ => rewrite Er in H; inversion H; subst end.
+            apply Forall_forall. intros x Hx. apply elem_of_list_fmap in Hx as (n & -> & Hn). auto. }
+        destruct (canon p) as [d|].
+        * destruct (decide (d ∈ dirs.1)); [by apply IH|].
+          destruct (read_dir p) as [names|] eqn:Er; [by apply Hrec|by apply IH].
+        * destruct (read_dir p) as [names|] eqn:Er; [by apply Hrec|by apply IH].
+      + destruct (nm || ext_circom p); [|by apply IH]. destruct (canon p); by apply IH.
+  Qed.
+
   Lemma include_terminates universe k fuel paths libs :
     (forall p c, canon p = Some c -> c ∈ universe) ->
     Forall (depth_le k) paths ->
@@ -703,12 +975,12 @@ Section IncludesProofs.
   Proof.
     intros Hu Hd Hf. unfold Includes.parse_files.
     destruct (new (S k) paths libs []) as [[st0 reps0]| | |] eqn:Hn; simpl; try done.
-    - pose proof (new_spec _ _ _ _ _ Hn) as (N1 & N2 & N3 & N4 & N5 & N6 & N7 & N8).
+    - pose proof (new_spec_weak _ _ _ _ _ Hn) as (N1 & N2 & N3 & N4 & N5 & N6 & N7 & N8 & N9).
       apply (parse_loop_fuel (add_libraries libs []).1 (user_inputs st0)) with (universe := universe);
         [by rewrite <- N4|done|by eapply initial_inv|simpl; lia].
     - unfold Includes.new in Hn. destruct (add_libraries libs []) as [ls r0].
-      destruct (add_files (S k) true paths ([], r0)) eqn:Ea; simpl in Hn; try discriminate.
-      by apply add_files_fuel in Ea.
+      destruct (add_files_once (S k) true paths ([], false) ([], r0)) eqn:Ea; simpl in Hn; try discriminate.
+      by apply add_files_once_fuel in Ea.
   Qed.
 
   (* the number of files read is bounded by the number of canonical paths *)
@@ -716,7 +988,7 @@ Section IncludesProofs.
     (forall p c, canon p = Some c -> c ∈ universe) ->
     parse_files false dfuel fuel paths libs = Ok s -> length (ps_read s) <= length universe.
   Proof.
-    intros Hu Hp. apply parse_files_inv in Hp as (ui & _ & I & _). by eapply inv_bound.
+    intros Hu Hp. apply parse_files_inv_weak in Hp as (ui & _ & _ & I & _). by eapply inv_bound.
   Qed.
 
   (* ---------------------------------------------------------------- *)
@@ -783,9 +1055,7 @@ Section IncludesProofs.
     intros Hp Hf Hc Hx.
     destruct (resolves_total f (add_libraries libs []).1 p) as [[c|] Hr].
     - left. exists c. split; [done|].
-      apply (reads_exactly_reachable _ _ _ _ _ Hp).
-      eapply (reach_include _ _ _ _ _ _ _ _ _ _ f incs (p, a, b)); [|done|done|done].
-      by apply (reads_exactly_reachable _ _ _ _ _ Hp).
+      by apply (reads_closed _ _ _ _ _ f incs (p, a, b) c Hp).
     - right. split; [done|]. by eapply (proj2 (unresolved_include_error_located _ _ _ _ _ Hp)).
   Qed.
 End IncludesProofs.
